@@ -88,7 +88,7 @@ def gen(S, tier):
         "same_trace": c.chance(0.5), "verbosity2": c.pick([1, 2, 4]),
         # another exception rendered (on its own IO) before the one under test
         "prior_exc": None,
-        "io_kind": c.weighted([("sim", 6), ("buffered", 1)]),
+        "io_kind": c.weighted([("sim", 6), ("buffered", 1), ("real", 1.5)]),
         # the second rendering goes to a stream with the other answer to supports_utf8()
         "utf8_flip2": c.chance(0.3),
     }
@@ -401,6 +401,13 @@ def _run(sc, res, log, store, r):
     out = SimOutputStream("out", log, ansi=sc["ansi"], utf8=sc["utf8"])
     err = SimOutputStream("err", log, ansi=sc["ansi"], utf8=sc["utf8"])
     fm = AnsiFormatter() if sc["ansi"] else PlainFormatter()
+    if sc.get("io_kind") == "real":
+        # clikit's own StreamOutputStream over a text file whose encoding gives the UTF-8 answer
+        from ..realstream import RealStreamOutput, SimFile
+        enc = ("utf-8" if sc["src_seed"] % 3 else "no-such-codec") if sc["utf8"] else ("ascii", "latin-1", "cp1252")[sc["src_seed"] % 3]
+        out = RealStreamOutput(SimFile("out", log, encoding=enc, strict=False), sc["ansi"])
+        err = RealStreamOutput(SimFile("err", log, encoding=enc, strict=False), sc["ansi"])
+        res.probe("real_stream_" + enc)
     io = IO(Input(SimInputStream(log, [])), Output(out, fm), Output(err, fm))
     if sc.get("io_kind") == "buffered":
         # clikit's own BufferedIO with the formatter it builds for itself
